@@ -205,7 +205,9 @@ def jobs(tier):
                 if order == 2 and bc == 'neumann': continue
                 J.append(Job(f'{tag}.Conjugate:GMRF:bc={bc}:order={order}:n=4', lambda c, i=iface, bc=bc, o=order: conjugate_exact(c, i, 'GMRF', 4, bc, o), 'Pbox', fl, extra=_extra, rtol=1e-4, timeout=600))
         # two-dimensional fields (the stacked difference operator has more rows than the field has pixels)
-        for bc, order in (('zero', 1), ('zero', 2)) + (() if q else (('periodic', 1),)):
+        # order 0 (white noise through the difference-operator machinery: in 2-D the operator is stacked, the structure matrix is 2I)
+        J.append(Job(f'{tag}.Conjugate:GMRF:bc=zero:order=0:n=4', lambda c, i=iface: conjugate_exact(c, i, 'GMRF', 4, 'zero', 0), 'Pbox', fl, extra=_extra, rtol=1e-4, timeout=600))
+        for bc, order in (('zero', 0), ('zero', 1), ('zero', 2)) + (() if q else (('periodic', 1),)):
             J.append(Job(f'{tag}.Conjugate:GMRF2D:bc={bc}:order={order}:2x2', lambda c, i=iface, bc=bc, o=order: conjugate_exact(c, i, 'GMRF2D', 4, bc, o), 'Pbox', fl + ['cuqi.distribution._gmrf:GMRF.sqrtprec'], extra=_extra, rtol=1e-4, timeout=600))
     for dep in ('cov=c/s', 'cov=1/s^2', 'cov=s', 'cov=1/(s+b)', 'prec=c*s', 'prec=s^2', 'prec=s^3', 'prec=1/s', 'prec=s+b', 'sqrtprec=s', 'two_occurrences', 'vector_gamma', 'vector_rate_gamma', 'geometry2_gamma'):
         J.append(Job(f'experimental.Conjugate:rejects:{dep}', lambda c, d=dep: rejects(c, d), 'Pbox',
